@@ -102,8 +102,11 @@ def rule_insert_table(ctx, res):
 
     def classify(lit, c):
         rel, a, b2, truth = lit
-        if rel == 'variant' and a[0] == 'call' and a[1].endswith('::get_mut') and is_field_of_param(a[2][0], 'self', 'storage'):
+        if rel == 'variant' and a[0] == 'call' and a[1].split('::')[-1] in ('get_mut', 'get') and is_field_of_param(a[2][0], 'self', 'storage'):
             return ('has_list', option_is_some(b2))
+        if rel == 'bool' and a[0] == 'call' and a[1].split('::')[-1] == 'contains' and len(a[2]) == 2 and is_param(strip_transparent(a[2][1]), 'item') \
+                and any(x[1].split('::')[-1] in ('get', 'get_mut') and is_field_of_param(x[2][0], 'self', 'storage') for x in find_calls(a[2][0], '::get') + find_calls(a[2][0], '::get_mut')):
+            return ('in_list', truth)
         if rel == 'bool' and a[0] == 'call' and a[1].endswith('::any'):
             r = closure_ret(ctx, res, a[2][1])
             ok = r is not None and r[0] == 'call' and lib.cmp_kind_of_call(r[1]) == 'eq' and 'item' in fmt(r)
